@@ -1,0 +1,46 @@
+//go:build verif
+
+package core
+
+import (
+	"context"
+
+	coregrpc "github.com/cometbft/cometbft/rpc/grpc"
+)
+
+// This file exists only under build tag `verif`. It exposes the unexported seams of the package
+// to the runtime monitors (C15) and changes nothing when the tag is off.
+
+// VerifBlockSource is the unexported blockSource interface (a single core endpoint, the leaf a
+// MultiSource fans over).
+type VerifBlockSource = blockSource
+
+// VerifBlockEvent builds a BlockEvent tagged with its announcing source, exactly as the fan-in of
+// a MultiSource (or a BlockFetcher) does.
+func VerifBlockEvent(height int64, addr string) BlockEvent {
+	return BlockEvent{Height: height, addr: addr}
+}
+
+// VerifAddr returns the announcing source of the event.
+func (ev BlockEvent) VerifAddr() string { return ev.addr }
+
+// VerifNewMultiSource builds the real MultiSource over harness-provided sources (addrs[i] is the
+// address of srcs[i]).
+func VerifNewMultiSource(addrs []string, srcs []VerifBlockSource) *MultiSource {
+	tagged := make([]taggedSource, len(srcs))
+	for i := range srcs {
+		tagged[i] = taggedSource{fetcher: srcs[i], addr: addrs[i]}
+	}
+	return newMultiSource(tagged...)
+}
+
+// VerifNewBlockFetcher builds the real BlockFetcher over a harness-provided gRPC client.
+func VerifNewBlockFetcher(client coregrpc.BlockAPIClient, addr string) *BlockFetcher {
+	return &BlockFetcher{client: client, addr: addr}
+}
+
+// VerifHandleNewBlockEvent runs the Listener's handler for one announced height and returns its
+// error (the listen loop only logs it).
+func (cl *Listener) VerifHandleNewBlockEvent(ctx context.Context, ev BlockEvent) error {
+	return cl.handleNewBlockEvent(ctx, ev)
+}
